@@ -1301,6 +1301,9 @@ func BuildAccept(p scn.UEParams, psi, pti byte, snssai []byte) nas.EstAccept {
 	a := nas.EstAccept{PSI: psi, PTI: pti, SSCMode: 1, SessionType: 1}
 	a.QoSRules = fill(p.QoSRuleLen)
 	a.AMBR = []byte{0x06, 0x00, 0x64, 0x06, 0x00, 0x32}
+	if b, err := hex.DecodeString(p.SessAMBR); err == nil && len(b) == 6 {
+		a.AMBR = b
+	}
 	ip := net.ParseIP(p.UEIP).To4()
 	o := p.AccOpt
 	if o&(1<<0) != 0 {
